@@ -37,7 +37,7 @@ def main():
         "engines": [{"name": "annverif", "path": "/verif/tool", "serves_properties": sorted(CLAIMED), "kind_free_text": "repository-specific static analyser on go/packages + go/ssa + VTA call graph: dominance/edge-dominance rules, who-may-call/write tables, finite-domain decision tables, lockset, taint, translation validation against go-ethereum v1.8.27"}],
         "checks": checks,
         "not_applicable": na,
-        "notes": "All checks are static: they load /repo's current working tree with go/packages on every run and never execute AnnChain code. Exit 2 = no verdict (load/type error, analyser panic).",
+        "notes": "All checks are static: they load /repo's current working tree with go/packages on every run and never execute AnnChain code. Exit 2 = no verdict (load/type error, analyser panic). Known findings (genuine defects recorded, not repaired) and the fixed: entries are in /verif/known_findings.json; the checks print KNOWN-FINDING lines for status=known entries only. Checker QA (not part of any verdict): /verif/mutants (inverse of every fix commit, hand-written catalogue, behaviour-preserving refactors that must stay silent) and /verif/seeded (199 breaking changes produced by independent sub-agents and confirmed), replayed through the loader overlay by the thorough tier and by `bin/annverif selftest`.",
     }
     json.dump(m, open('/verif/MANIFEST.json', 'w'), indent=1)
     print("claimed", len(checks), "not_applicable", len(na))
